@@ -9,7 +9,7 @@
 From Coq Require Import ZArith List Bool.
 Import ListNotations.
 From Urwid Require Import PyBase PyList c08_container_gen Containers
-  ContainersBase ContainersProofs ContainersSel ContainersRouting ContainersPath ContainersArrows.
+  ContainersBase ContainersStable ContainersProofs ContainersSel ContainersRouting ContainersPath ContainersArrows.
 From Urwid Require MonitoredList MonitoredListProofs.
 Open Scope Z_scope.
 
@@ -48,15 +48,13 @@ Proof.
 Qed.
 Print Assumptions focus_valid_frames_refuted.
 
-(* assigning an invalid position raises IndexError (ListBox: TypeError for a string position, finding
-   C08-listbox-string-position-typeerror) ... *)
+(* assigning an invalid position raises IndexError (also a string position on a ListBox, since fix 252ffad) ... *)
 Theorem invalid_position_raises :
   forall h id pos n, getn h id = Some n -> MonitoredListProofs.Valid (n_c n) ->
   match nk n with
   | KLeaf => True
   | KPile | KCols | KGrid => ~ (0 <= pos < nlen n) -> set_pos id pos h = (h, RErr EIndex)
-  | KLBox => ~ (0 <= pos < nlen n) ->
-      exists h', set_pos id pos h = (h', RErr (if (100 <=? pos) && negb (is_empty n) then EType else EIndex))
+  | KLBox => ~ (0 <= pos < nlen n) -> exists h', set_pos id pos h = (h', RErr EIndex)
   | KFrame => ~ parts_ok (n_b n) (n_d n) pos \/ ~ (pos = 100 \/ pos = 101 \/ pos = 102) -> set_pos id pos h = (h, RErr EIndex)
   | KOvl => pos <> 1 -> set_pos id pos h = (h, RErr EIndex)
   end.
@@ -110,34 +108,29 @@ Definition key_only_on_focus_path_full : Prop :=
     forall l, In l off -> OnPath (offer_heap f id key h) id l.
 
 (* ============ clause 3: an unhandled key comes back unchanged ============ *)
-(* proved for keys that are not bound to a navigation command, when nothing is pending and no Pile has a
-   stale selectable() == False cache *)
-Theorem unhandled_key_unchanged_partial :
-  forall f id key h h' k1 off, NoPending h -> PileCacheOK h -> nonnav key = true ->
+(* Since the repairs b542e11 (Pile.keypress on a Pile that is not selectable) and 6954e47 (empty Columns) the clause is
+   proved with NO premise on caches or pending requests: for every tree, every fuel and every state, if the key is not
+   bound to a navigation command, the call returns (the only model errors left are out-of-fuel, a dangling widget
+   id and the unmodelled page keys inside a ListBox) and no leaf that was offered the key handles it, then the very
+   key comes back.  [NoHandler h key off]: every leaf in [off] (the leaves that were offered the key) does not handle it. *)
+Theorem unhandled_key_unchanged :
+  forall f id key h h' k1 off, nonnav key = true ->
     kp f id key h = (h', ROk (k1, off)) -> NoHandler h key off -> k1 = Some key.
-Proof. exact unhandled_key_unchanged_nopending. Qed.
-Print Assumptions unhandled_key_unchanged_partial.
+Proof. exact unhandled_key_unchanged_all. Qed.
+Print Assumptions unhandled_key_unchanged.
 
-(* the full statement is FALSE of the faithful model (findings C08-pile-unselectable-swallows-key,
-   C08-columns-empty-keypress-indexerror; replayed by corpus/C08/pile_swallows_key.json, columns_empty_key.json) *)
-Definition unhandled_key_unchanged_full : Prop :=
-  forall f id key h h' r, nonnav key = true -> kp f id key h = (h', r) ->
-    match r with ROk (k1, off) => NoHandler h key off -> k1 = Some key | RErr _ => False end.
-
+(* the two former counterexamples (a Pile with a stale selectable() == False cache; an empty Columns), now regression
+   examples: the key comes back and no focus moves (corpus/C08/pile_swallows_key.json, columns_empty_key.json) *)
 Definition stale_pile_pool : list spec :=
   [SLeaf 10 false 0 false []; SLeaf 10 false 0 false []; SList KPile 10 false 0 None [1] 0 0 0;
    SList KPile 10 false 0 None [0; 2] 0 0 0; SLeaf 10 false 0 true []].
-Theorem unhandled_key_unchanged_refuted :
-  (* a grandchild edit makes the inner Pile selectable; the outer Pile's cache stays False;
-     then the key 'x' moves the outer focus and comes back as None *)
+Example former_counterexamples :
   (let h := fst (edit FUEL 2 (MonitoredList.Append 4) (build FUEL stale_pile_pool)) in
-   nonnav [120] = true /\ get_pos h 3 = ROk 0 /\
-   snd (kp FUEL 3 [120] h) = ROk (None, []) /\ get_pos (fst (kp FUEL 3 [120] h)) 3 = ROk 1)
+   nonnav [120] = true /\ sel FUEL h 3 = false /\ sel FUEL h 2 = true /\
+   snd (kp FUEL 3 [120] h) = ROk (Some [120], []) /\ get_pos (fst (kp FUEL 3 [120] h)) 3 = ROk 0)
   /\
-  (* an empty Columns raises IndexError from keypress *)
-  snd (kp FUEL 0 [120] (build FUEL [SList KCols 10 false 0 None [] 0 0 0])) = RErr EIndex.
+  snd (kp FUEL 0 [120] (build FUEL [SList KCols 10 false 0 None [] 0 0 0])) = ROk (Some [120], []).
 Proof. vm_compute. repeat split; reflexivity. Qed.
-Print Assumptions unhandled_key_unchanged_refuted.
 
 (* ============ clause 4: arrow keys move focus only onto selectable children ============ *)
 (* proved at the decision points of the containers: the child an arrow key gives the focus to had
@@ -235,10 +228,10 @@ Definition demo_pool : list spec :=
    SList KPile 60 false 0 None [3; 4] 0 0 0; SLeaf 60 false 0 true [];
    SFrame 60 false 0 5 None (Some 6) 100].
 
-Example demo_invariant : Inv (node_ok true) (build FUEL demo_pool) /\ NoPending (build FUEL demo_pool) /\ PileCacheOK (build FUEL demo_pool).
+Example demo_invariant : Inv (node_ok true) (build FUEL demo_pool) /\ NoPending (build FUEL demo_pool).
 Proof.
   split; [apply build_ok; intros _; unfold demo_pool; repeat (apply Forall_cons; [try exact I; left; reflexivity|]); apply Forall_nil|].
-  split; [apply no_pending_b_ok|apply piles_selectable_b_ok]; vm_compute; reflexivity.
+  apply no_pending_b_ok; vm_compute; reflexivity.
 Qed.
 
 (* 'x' is handled by leaf 0; 'right' skips the unselectable column; 'down' leaves the Columns; a press on the
